@@ -50,3 +50,7 @@ CORPUS += [
     M("handshake-counter-one-byte", L, '        payload = packet_id.to_bytes(2, "big") + data\n\n        return header + payload', '        payload = bytes([0, packet_id & 0xFF]) + data\n\n        return header + payload'),
     M("n-handshake-counter-struct", L, '        payload = packet_id.to_bytes(2, "big") + data\n\n        return header + payload', '        payload = struct.pack(">H", packet_id) + data\n\n        return header + payload', "S"),
 ]
+# round 7 (C07.a): an `assert authenticated` is not the handshake
+CORPUS += [
+    M("reauthentication-dropped-assert-kept", L, "            await self.authenticate()\n\n            # Protocol should be authenticated now", "            # Protocol should be authenticated now"),
+]
